@@ -99,6 +99,8 @@ func (e *Engine) vapi(g *Goroutine, name string, args []Value, fn *ssa.Function)
 	case "Assume":
 		e.Assume(args[0].(*term.T))
 		return nil, true
+	case "Ite":
+		return e.tb.Ite(args[0].(*term.T), args[1].(*term.T), args[2].(*term.T)), true
 	case "And":
 		return e.tb.And(args[0].(*term.T), args[1].(*term.T)), true
 	case "Or":
